@@ -5,11 +5,13 @@
 import Sidetree.Json
 import Sidetree.Drv.Window
 import Sidetree.Drv.Hash
+import Sidetree.Drv.Patch
 
 open Sidetree
 
 def handlers : List (String × (Json → Json)) :=
-  [("window", Drv.window), ("jcs", Drv.jcs), ("num", Drv.num), ("mh", Drv.mh), ("commit", Drv.commit)]
+  [("window", Drv.window), ("jcs", Drv.jcs), ("num", Drv.num), ("mh", Drv.mh), ("commit", Drv.commit),
+   ("validate", Drv.validate), ("origdoc", Drv.origdoc)]
 
 def answer (line : String) : String :=
   let cs := line.toList
